@@ -8,6 +8,9 @@ open MitmVerif Driver MitmVerif.C04 MitmVerif.C04.Prog
   NextLayer.events / handed-over flag; at the end every layer's handled events and sent-in values).
   The layer tree is arbitrary (height ≤ 4 here, any branching): `Prog.TS 3` / `Prog.HT 3`.
 
+  `seq <nodes> <xs> <rs>` → the reference blocking interpreter `C04.seq` run on the whole tree with the events and
+  replies a real run delivered to the root layer: final configuration, trace and total output.
+
   `prim <tabs> <ops>` → the generator primitives of one layer driven one by one:
   `p<l>` = `__process(self._handle_event(ev))`, `q<l>` = `_paused_event_queue.append(ev)`,
   `k<r>` = `__continue(completion of the paused command, reply r)`, `e<l>` / `b<r>` = `handle_event`.
@@ -199,6 +202,42 @@ def parsePrim (s : String) : Option Prim :=
     | none => none
   | [] => none
 
+/-! the reference blocking interpreter `seq` on a whole tree: events `xs` and replies `rs` come from the split of a
+    real run's arrivals at the root layer -/
+def parseCmd4 (s : String) : Option Cmd :=
+  match (s.splitOn ".").mapM (·.toNat?) with
+  | some [a, b, c, d] => some ⟨a, b, c, d⟩
+  | _ => none
+
+def parseEv (s : String) : Option E :=
+  match s.toList with
+  | 'p' :: rest =>
+    match (String.ofList rest).splitOn "u" with
+    | [l, u] => match l.toNat?, u.toNat? with
+      | some l, some u => some (.plain ⟨l, u⟩)
+      | _, _ => none
+    | _ => none
+  | 'k' :: rest =>
+    match (String.ofList rest).splitOn "r" with
+    | [c, r] => match parseCmd4 c, r.toNat? with
+      | some c, some r => some (.completed c r)
+      | _, _ => none
+    | _ => none
+  | _ => none
+
+def seqRender (cfg : SeqCfg (TS DEPTH) Ev Cmd Reply) : String :=
+  let p := match cfg.waiting with | some (c, _) => cmdStr c .owned | none => "-"
+  let rootSnap := s!"{p}:{joinWith ";" (cfg.todo.map evStr)}:m{cfg.st.1.mode}"
+  let rootLog := joinWith ";" (cfg.log.filterMap fun
+    | .handle ev => some ("h" ++ evStr ev)
+    | .emit c b => if c.layer = cfg.st.1.idx ∧ b ≠ .owned then some s!"s{c.n}r0" else none
+    | .pause _ => none
+    | .resume c r => some s!"s{c.n}r{r}")
+  let kids := cfg.st.2.flatMap (collect (DEPTH - 1))
+  let unused := if cfg.unused.isEmpty then "" else "!unused"
+  s!"[{joinWith ";" (cfg.out.map fun x => cmdStr x.1 x.2)}]" ++ joinWith "|" (rootSnap :: kids.map (·.1)) ++ "@" ++
+    joinWith "|" (rootLog :: kids.map (·.2)) ++ unused
+
 def step (line : String) : String :=
   match fields line with
   | ["run", nl, aos, nodes, sch] =>
@@ -210,6 +249,14 @@ def step (line : String) : String :=
       let fin := runAll (aos = "1") ⟨top, #[], [], []⟩ 0 sched
       joinWith "#" fin.acc.reverse ++ "@" ++ joinWith "|" ((collect DEPTH (treeOf fin.top)).map (·.2))
     | _, _ => "bad-op"
+  | ["seq", nodes, xs, rs] =>
+    match (nodes.splitOn "|").mapM parseNode,
+          (if xs = "-" then some [] else (xs.splitOn ",").mapM parseEv),
+          (if rs = "-" then some [] else (rs.splitOn ",").mapM (·.toNat?)) with
+    | some (root :: more), some xs, some rs =>
+      let tree := mkLayer (root :: more) DEPTH root
+      seqRender (seq (HT DEPTH) 0 tree.st none [] [] xs rs)
+    | _, _, _ => "bad-op"
   | ["prim", tabs, ops] =>
     match parseTabs tabs, (if ops = "-" then some [] else (ops.splitOn ",").mapM parsePrim) with
     | some t, some ops =>
